@@ -43,8 +43,10 @@ JweParties(e) == {p \in [alg : KmAlgs, keykind : KeyKinds] : KmApplicable(p.alg,
 SeqsUpTo(S, n) == UNION {[1..m -> S] : m \in 1..n}
 NP(o) == Len(o.parties)
 
-JwsObj(ps, n, b)       == [kind |-> "jws", parties |-> ps, enc |-> "", zip |-> "", size |-> n, aad |-> 0, embed |-> b]
-JweObj(ps, e, z, n, d) == [kind |-> "jwe", parties |-> ps, enc |-> e, zip |-> z, size |-> n, aad |-> d, embed |-> FALSE]
+JwsObj(ps, n, b)       == [kind |-> "jws", parties |-> ps, enc |-> "", zip |-> "", size |-> n, aad |-> 0, embed |-> b,
+                           pcls |-> "pattern", keyvar |-> "plain"]
+JweObj(ps, e, z, n, d) == [kind |-> "jwe", parties |-> ps, enc |-> e, zip |-> z, size |-> n, aad |-> d, embed |-> FALSE,
+                           pcls |-> "pattern", keyvar |-> "plain"]
 \* (operators with a parameter: TLC evaluates constant definitions without one eagerly, whatever the cfg uses)
 HJws(mp) == { JwsObj(ps, n, b) : ps \in SeqsUpTo(JwsParties, mp), n \in Sizes, b \in JwsEmbeds }
 HJwe(mp) == UNION { { JweObj(ps, e, z, n, d) : ps \in SeqsUpTo(JweParties(e), mp), z \in Zips, n \in Sizes, d \in AadSizes } :
@@ -60,7 +62,7 @@ HRepresentable(o, f) == f = "compact" => (NP(o) = 1 /\ o.aad = 0)
 RightKey(p) == [p |-> p, v |-> "right"]
 OtherKey(p) == [p |-> p, v |-> "other"]
 AlienKey    == [p |-> 0, v |-> "alien"]
-KeyChoices(o) == {RightKey(p) : p \in 1..NP(o)} \cup {OtherKey(p) : p \in 1..NP(o)} \cup {AlienKey}
+HKeyChoices(o) == {RightKey(p) : p \in 1..NP(o)} \cup {OtherKey(p) : p \in 1..NP(o)} \cup {AlienKey}
 Asymmetric(kind) == kind \notin OctKinds
 
 \* ----------------------------------------------------------------- produce
@@ -87,7 +89,7 @@ HMakeJwe(o) ==
                [] NP(o) = 1 /\ a1 = "ECDH-ES" -> Kdf(RightKey(1), m.epk, m.enc)
                [] OTHER                       -> [t |-> "cek"]
       iv  == [t |-> "iv"]
-      ct  == CtTerm(o.enc, cek, iv, Zip(o.zip, Pay(o)))
+      ct  == CtTerm(o.enc, cek, iv, Plain(o.enc, o.zip, Pay(o)))
   IN [protected  |-> h, iv |-> iv, ciphertext |-> ct,
       tag        |-> TagTerm(o.enc, cek, iv, AuthData(h, Aad(o)), ct),
       aad        |-> Aad(o),
@@ -140,7 +142,7 @@ HDecrypt(m, k) ==
   LET pm == ParseHdr(m.protected)
   IN IF pm = Bad THEN Err("parse")
      ELSE IF \E i \in DOMAIN m.entries : EntryOpens(m, pm, i, k)
-          THEN Ok(Unzip(pm.zip, m.ciphertext.pt), m.aad)
+          THEN Ok(Recover(pm.zip, m.ciphertext.pt), m.aad)
           ELSE Err("crypto")
 HOpen(o, m, k) == IF o.kind = "jws" THEN HVerify(m, k) ELSE HDecrypt(m, k)
 
@@ -191,7 +193,7 @@ HNext == \/ HProduce
          \/ \E fld \in JwsFields \cup JweFields, at \in 0..MaxParties, c \in HdrClasses \cup {"bits"} :
                HTamper([fld |-> fld, at |-> at], c)
          \/ HParse
-         \/ \E op \in {"open", "reser"}, k \in KeyChoices(obj) : HStep([op |-> op, key |-> k])
+         \/ \E op \in {"open", "reser"}, k \in HKeyChoices(obj) : HStep([op |-> op, key |-> k])
 HSpec == HInit /\ [][HNext]_hvars
 
 \* -------------------------------------------------------------- properties
